@@ -46,6 +46,8 @@ def gen_case(rng, fi=None):
     path, node = rng.choice(strats)
     kids = node["kids"]
     k = rng.randint(1, len(kids))
+    if rng.random() < 0.08:
+        k = 0         # an empty target vector ("hold nothing"): everything open is closed, the value stays in cash
     idxs = sorted(rng.sample(range(len(kids)), k))
     ws = []
     tot = 0.0
@@ -124,7 +126,11 @@ def run_case(ctx, bt, case, collected, replaying=False):
     if case["notional"] is not None:
         node.temp["notional_value"] = case["notional"]
     pre = E.snap_world(bt, root)
-    pre_kids = {k.name: (k.value, k.weight, k.notional_value) for k in kids}
+    try:
+        pre_kids = {k.name: (k.value, k.weight, k.notional_value) for k in kids}
+    except Exception as e:  # noqa
+        ctx.count("prior-raised:" + E.classify_exc(e))      # (the refresh after the flow meets a zero-base node: not a usable prior)
+        return
     pre_gk = {k.name: {g.name: (g._value, g._weight) for g in k._childrenv} for k in kids if not isinstance(k, bt.core.SecurityBase)}
     fees0 = sum(float(n._last_fee) for n in root.members if isinstance(n, bt.core.StrategyBase))
     bo0 = sum(float(s._bidoffer_paid) for s in leaves(bt, root))
